@@ -61,6 +61,7 @@ type Prog struct {
 	declOf    map[*types.Func]*ast.FuncDecl
 	pkgOfDecl map[*ast.FuncDecl]*packages.Package
 	fieldName map[*types.Var]string
+	modFuncs  []*ssa.Function
 	cgCHA     *callgraph.Graph
 	cgVTA     *callgraph.Graph
 
@@ -434,11 +435,40 @@ func (p *Prog) ModuleFuncDecls(fn func(pkg *packages.Package, fd *ast.FuncDecl, 
 }
 
 // ModuleSSAFuncs returns all source functions of the module (incl. anonymous
-// and instantiations) sorted by name.
+// functions, range-over-func bodies and generic instantiations) sorted by
+// name. Functions are enumerated from the declarations, not from
+// reachability: ssautil.AllFunctions omits methods of types that nothing
+// references, which are source all the same.
 func (p *Prog) ModuleSSAFuncs() []*ssa.Function {
-	var out []*ssa.Function
+	if p.modFuncs != nil {
+		return p.modFuncs
+	}
+	set := map[*ssa.Function]bool{}
+	var add func(f *ssa.Function)
+	add = func(f *ssa.Function) {
+		if f == nil || set[f] {
+			return
+		}
+		set[f] = true
+		for _, a := range f.AnonFuncs {
+			add(a)
+		}
+	}
+	for obj := range p.declOf {
+		if f := p.SSA.FuncValue(obj); f != nil && f.Blocks != nil {
+			add(f)
+		}
+	}
+	// package initialisers
+	for _, pkg := range p.Mod {
+		if sp := p.SSAPkgs[pkg.PkgPath]; sp != nil {
+			if f := sp.Func("init"); f != nil && f.Blocks != nil {
+				add(f)
+			}
+		}
+	}
 	for f := range p.Funcs {
-		if f.Blocks == nil {
+		if f.Blocks == nil || !inModule(f) {
 			continue
 		}
 		// synthetic functions are wrappers and thunks without source of their
@@ -446,9 +476,11 @@ func (p *Prog) ModuleSSAFuncs() []*ssa.Function {
 		if f.Synthetic != "" && f.Origin() == nil && !strings.HasPrefix(f.Synthetic, "range-over-func") {
 			continue
 		}
-		if inModule(f) {
-			out = append(out, f)
-		}
+		add(f)
+	}
+	var out []*ssa.Function
+	for f := range set {
+		out = append(out, f)
 	}
 	sort.Slice(out, func(i, j int) bool {
 		a, b := out[i].String(), out[j].String()
@@ -457,6 +489,7 @@ func (p *Prog) ModuleSSAFuncs() []*ssa.Function {
 		}
 		return out[i].Pos() < out[j].Pos()
 	})
+	p.modFuncs = out
 	return out
 }
 
